@@ -410,3 +410,19 @@ Theorem C07_model_satisfies_property_predicate :
   forall c : case, agree c = true -> P_b c = true.
 Proof. exact agree_implies_P_b. Qed.
 Print Assumptions C07_model_satisfies_property_predicate.
+
+(* The predicate means the property: [P c] (Check/C07.v) is the property written as a proposition
+   over the nodes (who gave which acceptable answer when; votes counted over nodes).  Equal ids
+   carrying equal contents, a case that passes [P_b] satisfies [P] ... *)
+Theorem C07_property_predicate_is_sound :
+  forall c : case, ids_ok (c_provs c) -> P_b c = true -> P c.
+Proof. exact P_b_sound. Qed.
+Print Assumptions C07_property_predicate_is_sound.
+
+(* ... and so does every case on which the implementation's observed output is one of the model's
+   outcomes: the model satisfies the property, for all strategies, parameters, node behaviours,
+   orders of simultaneous events and Go map orders. *)
+Theorem C07_model_satisfies_property :
+  forall c : case, agree c = true -> P c.
+Proof. exact agree_implies_P. Qed.
+Print Assumptions C07_model_satisfies_property.
